@@ -848,7 +848,7 @@ def run(tier, replay=None):
         # that stems from the four allele slots of get_sample_snv_ACP carries SIG_FIVE and nothing else
         if FIVE_STREAM:
             five_fields = [["ACP"], ["AFP"], [], ["ACP", "AFP", "SNVDP"], ["SNVDP"]]
-            for i in range({"warm": 2, "quick": 20, "thorough": 200}[tier]):
+            for i in range({"warm": 0, "quick": 20, "thorough": 200}[tier]):
                 text, shp = gen_file(r, 1, ["five"], fields=set(five_fields[i % 5]), size=None if i % 3 else "some")
                 at.run(text, "generated:five-symbols", shp)
         # real pipeline outputs
